@@ -103,7 +103,10 @@ def run_case(case):
         for ev in case['history']:
             if ev == 'X':
                 uid = obj.userids[0]
-                uid |= key.certify(key.userids[0], key_expiration=timedelta(days=1), created=now - timedelta(hours=1), **PREFS)
+                extra = {}
+                if case.get('variant') == 'the certification has itself expired':
+                    extra['expires'] = timedelta(minutes=10)          # its own lifetime ended 50 minutes ago; the key expiry it states stands
+                uid |= key.certify(key.userids[0], key_expiration=timedelta(days=1), created=now - timedelta(hours=1), **dict(PREFS, **extra))
             elif ev == 'R':
                 obj |= key.revoke(key, created=now - timedelta(minutes=30))
             else:
@@ -133,6 +136,7 @@ def component(tier='quick', seed=0, known=()):
     maxlen = 4 if tier == 'quick' else 6
     cases = [{'alg': a, 'kind': k, 'history': h} for a in ALGS for k in KINDS for h in histories(maxlen)]
     cases += [{'alg': a, 'kind': k, 'history': 'T'} for a in ALGS for k in KINDS]
+    cases += [{'alg': a, 'kind': k, 'history': h, 'variant': 'the certification has itself expired'} for a in ALGS for k in KINDS for h in ('XV', 'VXV', 'XRV')]
     cases += [{'alg': a, 'kind': k, 'history': 'S'} for a in ALGS for k in ('key packet alone', 'only self-signature damaged')]
     cases.sort(key=lambda c: c['history'] != 'T')
     ctx = multiprocessing.get_context('fork')
